@@ -31,10 +31,11 @@ class OccupancyRoles:
                 if isinstance(n, ast.Return) and isinstance(n.value, ast.Subscript) and self_attr(n.value.value):
                     self.occ = self_attr(n.value.value)
         if ys is not None:
-            for n in ast.walk(ys):
-                if isinstance(n, ast.For) and isinstance(n.iter, ast.Call) and isinstance(n.iter.func, ast.Attribute) \
-                        and self_attr(n.iter.func.value):
-                    self.sur = self_attr(n.iter.func.value)
+            # the surplus table is the one attribute the surplus generator reads (however it iterates over it)
+            attrs = {self_attr(n) for n in ast.walk(ys) if isinstance(n, ast.Attribute) and self_attr(n)
+                     and not any(isinstance(c, ast.Call) and c.func is n for c in ast.walk(ys))}
+            if len(attrs) == 1:
+                self.sur = attrs.pop()
         if not (self.occ and self.sur):
             raise AnalysisError("occupant / surplus tables of the cell occupancy not identified by role")
         ya = self.cls.methods.get("yield_active_cells")
@@ -141,19 +142,11 @@ def check_occupancy(prog: Program, rep: Report) -> None:
         for n in ast.walk(fn):
             if isinstance(n, ast.Call) and _append_target(n, roles) and _append_target(n, roles)[0] == "occ" and id(n) not in site_calls:
                 cell = _append_target(n, roles)[1]
-                blk = _block_of(fn, n)
-                idx = _index_in(blk, n)
-                prior = [c for st in blk[:idx + 1] for c in ast.walk(st) if isinstance(c, ast.Call) and isinstance(c.func, ast.Attribute)
+                # statements that run before the append on every path to it (earlier statements of its block and of every enclosing block)
+                prior = [c for st in _dominating_statements(fn, n) if isinstance(st, ast.Expr) for c in [st.value]
+                         if isinstance(c, ast.Call) and isinstance(c.func, ast.Attribute)
                          and c.func.attr == "remove" and isinstance(c.func.value, ast.Subscript) and self_attr(c.func.value.value) == roles.occ
-                         and norm(c.func.value.slice) == cell and c.lineno <= n.lineno]
-                # also accept an enclosing try whose body starts with the removal
-                if not prior:
-                    for t in ast.walk(fn):
-                        if isinstance(t, ast.Try) and any(x is n for st in t.body for x in ast.walk(st)):
-                            first = t.body[0]
-                            prior = [c for c in ast.walk(first) if isinstance(c, ast.Call) and isinstance(c.func, ast.Attribute)
-                                     and c.func.attr == "remove" and isinstance(c.func.value, ast.Subscript)
-                                     and self_attr(c.func.value.value) == roles.occ and norm(c.func.value.slice) == cell]
+                         and norm(c.func.value.slice) == cell]
                 rep.ob("R11.1-no-append-beyond-cap", bool(prior), Loc(file, n.lineno, f"{cls.name}.{fn.name}"), n,
                        "an occupant is appended outside a cap-guarded placement and not in exchange for a removed occupant of "
                        "the same cell: the cell can list more occupants than its limit")
@@ -163,19 +156,10 @@ def check_occupancy(prog: Program, rep: Report) -> None:
             if isinstance(n, ast.Delete) and any(isinstance(t, ast.Subscript) and self_attr(t.value) == roles.sur for t in n.targets):
                 cell = [norm(t.slice) for t in n.targets if isinstance(t, ast.Subscript)][0]
                 g = _enclosing_if(fn, n)
-                ok = False
-                if g is not None:
-                    t = g.test
-                    if isinstance(t, ast.UnaryOp) and isinstance(t.op, ast.Not):
-                        inner = t.operand
-                        if isinstance(inner, ast.Call) and isinstance(inner.func, ast.Attribute) and inner.func.attr == "get" \
-                                and self_attr(inner.func.value) == roles.sur and inner.args and norm(inner.args[0]) == cell:
-                            ok = len(inner.args) == 2 and norm(inner.args[1]) == "True"
-                        elif isinstance(inner, ast.Subscript) and self_attr(inner.value) == roles.sur and norm(inner.slice) == cell:
-                            ok = True
-                    elif isinstance(t, ast.Compare) and norm(t.left) == f"len(self.{roles.sur}[{cell}])" and isinstance(t.ops[0], ast.Eq) \
-                            and norm(t.comparators[0]) == "0":
-                        ok = True
+                conds = path_conditions(fn.body, n) or []
+                lst = f"self.{roles.sur}[{cell}]"
+                ok = any(a in (f"not {lst}", f"0 == len({lst})", f"len({lst}) == 0", f"len({lst}) < 1", f"len({lst}) <= 0", f"[] == {lst}", f"not len({lst})")
+                         for a in conds)
                 rep.ob("R11.1-surplus-list-dropped-only-if-empty", ok, Loc(file, n.lineno, f"{cls.name}.{fn.name}"), g.test if g is not None else n,
                        "a cell's surplus list may be deleted only when it has become empty; deleting a non-empty list loses its units: "
                        "they are then recorded neither as occupants nor as surplus and no event family treats them")
@@ -217,18 +201,33 @@ def check_occupancy(prog: Program, rep: Report) -> None:
     rep.ob("R11.2-reinsert-present", len(re_sites) == 1, loc, f"{len(re_sites)} re-insertion site(s) in update",
            "the previous active unit must be re-inserted exactly once when the active unit changes")
     # new active unit leaves exactly one container
+    def removals(stmts, table):
+        return [c for st in stmts for c in ast.walk(st) if isinstance(c, ast.Call) and isinstance(c.func, ast.Attribute) and c.func.attr == "remove"
+                and isinstance(c.func.value, ast.Subscript) and self_attr(c.func.value.value) == table and len(c.args) == 1]
+
+    def same_unit_and_cell(r1, r2) -> bool:
+        return len(r1) == 1 and len(r2) == 1 and norm(r1[0].args[0]) == norm(r2[0].args[0]) == f"{new_unit}.identifier" \
+            and norm(r1[0].func.value.slice) == norm(r2[0].func.value.slice) == f"self.{roles.active_cell}"
     tries = [t for t in ast.walk(main) if isinstance(t, ast.Try)]
     ok = False
     if len(tries) == 1:
+        # try: occupants[cell].remove(new) ... except ValueError: surplus[cell].remove(new)
         t = tries[0]
-        first = t.body[0]
-        r1 = [c for c in ast.walk(first) if isinstance(c, ast.Call) and isinstance(c.func, ast.Attribute) and c.func.attr == "remove"
-              and isinstance(c.func.value, ast.Subscript) and self_attr(c.func.value.value) == roles.occ]
+        r1 = removals(t.body[:1], roles.occ)
         h = [hh for hh in t.handlers if "ValueError" in norm(hh.type or ast.Constant(value=""))]
-        r2 = [c for hh in h for c in ast.walk(hh) if isinstance(c, ast.Call) and isinstance(c.func, ast.Attribute) and c.func.attr == "remove"
-              and isinstance(c.func.value, ast.Subscript) and self_attr(c.func.value.value) == roles.sur]
-        ok = len(r1) == 1 and len(r2) == 1 and norm(r1[0].args[0]) == norm(r2[0].args[0]) == f"{new_unit}.identifier" \
-            and norm(r1[0].func.value.slice) == norm(r2[0].func.value.slice) == f"self.{roles.active_cell}"
+        r2 = removals([x for hh in h for x in hh.body], roles.sur)
+        ok = same_unit_and_cell(r1, r2) and not removals(t.body, roles.sur)
+    else:
+        # if new in occupants[cell]: occupants[cell].remove(new) ... else: surplus[cell].remove(new)      (either orientation)
+        member = f"{new_unit}.identifier in self.{roles.occ}[self.{roles.active_cell}]"
+        for n in ast.walk(main):
+            if isinstance(n, ast.If) and n.orelse:
+                at = atoms(n.test)
+                for in_occ, other in ((n.body, n.orelse), (n.orelse, n.body)):
+                    want = [member] if in_occ is n.body else [member.replace(" in ", " not in ", 1)]
+                    if at == want and same_unit_and_cell(removals(in_occ, roles.occ), removals(other, roles.sur)) \
+                            and not removals(in_occ, roles.sur) and not removals(other, roles.occ):
+                        ok = True
     rep.ob("R11.1-new-active-leaves-one-container", ok, loc, "try: occupants[cell].remove(new) except ValueError: surplus[cell].remove(new)",
            "the new active unit must be taken out of exactly one list of its cell (occupants, else surplus)")
     # active cell of the new unit is computed from its position before the removal
@@ -259,6 +258,7 @@ def check_occupancy(prog: Program, rep: Report) -> None:
     rep.ob("R11.1-irrelevant-active-cleared", okr, loc, "irrelevant active unit: no active cell",
            "an active unit that is not relevant to this cell system must be recorded nowhere")
     # ---- initialize ------------------------------------------------------------------------------------------------------
+    check_relevance_predicate(cls, roles, rep)
     ini = methods.get("initialize")
     isites = [s for fn, s, _, _, _ in placement_sites if fn is ini]
     lociI = Loc(file, ini.lineno if ini else 0, f"{cls.name}.initialize")
@@ -274,6 +274,172 @@ def check_occupancy(prog: Program, rep: Report) -> None:
                      and "position_to_cell" in norm(a.value)]
         rep.ob("R11.1-initialize-cell-from-position", bool(cell_defs) and all(norm(a.value.args[0]).endswith(".position") for a in cell_defs),
                lociI, cell_defs[0] if cell_defs else "cell", "the cell must be the cell of the unit's position")
+
+
+def check_cell_bounds(prog: Program, rep: Report) -> None:
+    """
+    R11.6: the stored lower / upper corner of every cell lies inside the cell (the boundary handler lands the active unit exactly on
+    these corners and the occupancy then asks position_to_cell for the same position).  Decided as a Hoare postcondition: the last
+    loop that moves a corner coordinate before it is stored must exit with `int(coordinate / side) >= identifier` (lower corner) or
+    `<= identifier` (upper corner) -- the cell index expression of the coordinate itself, not of a neighbouring float.
+    Constructions that are not written as such search loops are left undecided.
+    """
+    cls = prog.class_named("CuboidCells")
+    if cls is None or "__init__" not in cls.methods:
+        raise AnalysisError("CuboidCells.__init__ not found")
+    fn = canon(prog, cls, cls.methods["__init__"])
+    RC = Resolver(fn)
+    cell_calls = [c for c in ast.walk(fn) if isinstance(c, ast.Call) and norm(c.func) == "Cell" and len(c.args) == 3]
+    if len(cell_calls) != 1:
+        rep.ob("R11.6-corner-inside-cell", None, Loc(cls.file, fn.lineno, "CuboidCells.__init__"), "Cell(...)", "cell construction not recognised")
+        return
+    lists = []
+    for a in cell_calls[0].args[1:]:
+        while isinstance(a, ast.Call) and norm(a.func) in ("tuple", "list") and len(a.args) == 1:
+            a = a.args[0]
+        lists.append(a.id if isinstance(a, ast.Name) else None)
+    for which, lname in zip(("lower", "upper"), lists):
+        apps = [c for c in ast.walk(fn) if isinstance(c, ast.Call) and isinstance(c.func, ast.Attribute) and c.func.attr == "append"
+                and norm(c.func.value) == lname and len(c.args) == 1 and isinstance(c.args[0], ast.Name)] if lname else []
+        for c in apps:
+            v = c.args[0].id
+            block = _block_of(fn, c)
+            i = _index_in(block, c)
+
+            def last_mover(stmts: List[ast.stmt]) -> Optional[ast.stmt]:
+                for st in reversed(stmts):
+                    if any(isinstance(x, ast.Name) and x.id == v and isinstance(x.ctx, ast.Store) for x in ast.walk(st)):
+                        return st
+                return None
+            st = last_mover(block[:i])
+            # the search may be skipped for a coordinate that is exactly 0.0 (`if v > 0.0:` without else)
+            while isinstance(st, ast.If) and not st.orelse and atoms(st.test) in ([f"0.0 < {v}"], [f"0 < {v}"]):
+                st = last_mover(st.body)
+            loc = Loc(cls.file, c.lineno, "CuboidCells.__init__")
+            if not isinstance(st, ast.While) or st.orelse:
+                rep.ob("R11.6-corner-inside-cell", None, loc, c, f"the {which} corner is not produced by a search loop")
+                continue
+            ex = atoms(st.test, False)
+            sp = split_atom(ex[0]) if len(ex) == 1 else None
+            verdict: Optional[bool] = None
+            why = "exit condition of the last search loop not recognised"
+            if sp is not None:
+                l, op, r = sp
+                idx_own = f"int({v} / "
+                side_l, side_r = l.startswith("int("), r.startswith("int(")
+                if side_l != side_r and op in ("<=", "<", "==", "!="):
+                    cellidx, ident = (l, r) if side_l else (r, l)
+                    if not cellidx.startswith(idx_own):
+                        verdict, why = False, (f"the last search loop exits on the cell index of `{cellidx}`, which is not the stored coordinate "
+                                               f"`{v}`: nothing establishes that `{v}` itself lies in the cell")
+                    else:
+                        # exit condition as  ident OP int(v / side)  or  int(v / side) OP ident
+                        rel = {"<=": ">=", "<": ">", "==": "==", "!=": "!="}[op] if side_r else op         # index REL ident
+                        good = {"lower": (">=", "=="), "upper": ("<=", "==")}[which]
+                        verdict = rel in good
+                        why = f"the last search loop exits with `{ex[0]}`: the {which} corner must end with cell index {good[0]} the identifier"
+            rep.ob("R11.6-corner-inside-cell", verdict, loc, st.test, why)
+
+
+class _NoValue(Exception):
+    pass
+
+
+def _sign_eval(e: ast.AST, is_charge, value: float):
+    """value of a small arithmetic / boolean expression in which the sub-expressions accepted by is_charge have the given value"""
+    if is_charge(e):
+        return value
+    if isinstance(e, ast.Constant):
+        return e.value
+    if isinstance(e, ast.UnaryOp):
+        v = _sign_eval(e.operand, is_charge, value)
+        return (not v) if isinstance(e.op, ast.Not) else (-v if isinstance(e.op, ast.USub) else +v)
+    if isinstance(e, ast.BoolOp):
+        vals = [_sign_eval(v, is_charge, value) for v in e.values]
+        return all(vals) if isinstance(e.op, ast.And) else any(vals)
+    if isinstance(e, ast.BinOp) and isinstance(e.op, (ast.Add, ast.Sub, ast.Mult)):
+        l, r = _sign_eval(e.left, is_charge, value), _sign_eval(e.right, is_charge, value)
+        if isinstance(l, bool) or isinstance(r, bool) or not isinstance(l, (int, float)) or not isinstance(r, (int, float)):
+            raise _NoValue()
+        return l + r if isinstance(e.op, ast.Add) else (l - r if isinstance(e.op, ast.Sub) else l * r)
+    if isinstance(e, ast.Compare):
+        vals = [_sign_eval(x, is_charge, value) for x in [e.left] + e.comparators]
+        if any(v is None or isinstance(v, str) for v in vals):
+            raise _NoValue()
+        ok = True
+        for op, a, b in zip(e.ops, vals, vals[1:]):
+            if isinstance(op, ast.Eq):
+                ok = ok and a == b
+            elif isinstance(op, ast.NotEq):
+                ok = ok and a != b
+            elif isinstance(op, ast.Lt):
+                ok = ok and a < b
+            elif isinstance(op, ast.LtE):
+                ok = ok and a <= b
+            elif isinstance(op, ast.Gt):
+                ok = ok and a > b
+            elif isinstance(op, ast.GtE):
+                ok = ok and a >= b
+            else:
+                raise _NoValue()
+        return ok
+    if isinstance(e, ast.Call) and isinstance(e.func, ast.Name) and e.func.id in ("abs", "bool", "float") and len(e.args) == 1 and not e.keywords:
+        v = _sign_eval(e.args[0], is_charge, value)
+        return abs(v) if e.func.id == "abs" else (bool(v) if e.func.id == "bool" else float(v))
+    if isinstance(e, ast.IfExp):
+        return _sign_eval(e.body if _sign_eval(e.test, is_charge, value) else e.orelse, is_charge, value)
+    raise _NoValue()
+
+
+def check_relevance_predicate(cls: ClassInfo, roles: "OccupancyRoles", rep: Report) -> None:
+    """
+    A cell system restricted to a charge records the units whose charge is non-zero (of either sign), an unrestricted one records
+    every unit: the predicate bound in the constructor is evaluated over the sign domain of the charge (negative, zero, positive).
+    """
+    init = cls.methods.get("__init__")
+    if init is None or roles.relevant is None:
+        return
+    lambdas = [x for n in ast.walk(init) if isinstance(n, ast.Assign) and any(self_attr(t) == roles.relevant for t in n.targets)
+               for x in ast.walk(n.value) if isinstance(x, ast.Lambda)]
+    for lam in lambdas:
+        params = {a.arg for a in lam.args.args}
+
+        def is_charge(e: ast.AST) -> bool:
+            return isinstance(e, ast.Subscript) and isinstance(e.value, ast.Attribute) and e.value.attr == "charge" \
+                and isinstance(e.value.value, ast.Name) and e.value.value.id in params
+        loc = Loc(cls.file, lam.lineno, f"{cls.name}.__init__")
+        uses_charge = any(is_charge(x) for x in ast.walk(lam.body))
+        try:
+            table = [bool(_sign_eval(lam.body, is_charge, v)) for v in (-2.0, -1.0, -0.25, 0.0, 0.25, 1.0, 2.0)]
+        except (_NoValue, TypeError, ZeroDivisionError):
+            rep.ob("R11.1-relevance-predicate", None, loc, lam, "relevance predicate not in the evaluated fragment")
+            continue
+        want = [True, True, True, False, True, True, True] if uses_charge else [True] * 7
+        rep.ob("R11.1-relevance-predicate", table == want, loc, lam,
+               f"truth table over charge = (-2, -1, -1/4, 0, 1/4, 1, 2) is {table}: a charge-restricted cell system must record exactly the "
+               "units with a non-zero charge of either sign, an unrestricted one every unit")
+
+
+def _dominating_statements(fn: ast.AST, node: ast.AST) -> List[ast.stmt]:
+    """statements executed before `node` on every path that reaches it: the earlier statements of its block and of all enclosing blocks"""
+    out: List[ast.stmt] = []
+
+    def go(stmts: List[ast.stmt]) -> bool:
+        for i, st in enumerate(stmts):
+            if any(x is node for x in ast.walk(st)):
+                out.extend(stmts[:i])
+                for fld in ("body", "orelse", "finalbody"):
+                    b = getattr(st, fld, None)
+                    if isinstance(b, list) and b and isinstance(b[0], ast.stmt) and go(b):
+                        return True
+                if isinstance(st, ast.Try):
+                    for h in st.handlers:
+                        if go(h.body):
+                            return True
+                return True
+        return False
+    go(getattr(fn, "body", []))
+    return out
 
 
 def _block_of(fn: ast.AST, node: ast.AST) -> List[ast.stmt]:
@@ -318,8 +484,8 @@ def check_landing_table(prog: Program, rep: Report) -> None:
     if fn is None or out is None:
         raise AnalysisError("CellBoundaryEventHandler methods not found")
     file = h.file
-    fn = canon(prog, h, fn, helpers=False)
-    out = canon(prog, h, out, helpers=False)
+    fn = canon(prog, h, fn)
+    out = canon(prog, h, out, helpers=False)     # the time-slice helpers write positions too: the snap is the handler's own write
     # abstract execution of the loop body for a positive and for a negative velocity component: which neighbour cell is asked
     # for (the flag passed to neighbor_cell) and which of its faces becomes the boundary
     loops = [l for l in ast.walk(fn) if isinstance(l, ast.For) and isinstance(l.iter, ast.Call) and norm(l.iter.func) == "enumerate"
@@ -415,8 +581,9 @@ def check_landing_table(prog: Program, rep: Report) -> None:
             and any(isinstance(a, ast.Assign) and norm(a.targets[0]) == sp[2] and norm(a.value) == sp[0] for a in sel[0].body)
     rep.ob("R11.4-select-earliest", ok, Loc(file, sel[0].lineno if sel else fn.lineno, f"{h.name}.send_event_time"),
            sel[0].test if sel else "selection", "boundary and direction of the earliest crossing must be stored together")
+    RO = Resolver(out)
     snaps = [a for a in ast.walk(out) if isinstance(a, ast.Assign) and isinstance(a.targets[0], ast.Subscript)
-             and isinstance(a.targets[0].value, ast.Attribute) and a.targets[0].value.attr == "position"]
+             and RO.text(a.targets[0].value).endswith(".position")]
     oks = len(snaps) == 1 and self_attr(snaps[0].targets[0].slice) == "_direction" and self_attr(snaps[0].value) == "_boundary"
     rep.ob("R11.4-snap-writes-selected-boundary", oks, Loc(file, out.lineno, f"{h.name}.send_out_state"), snaps[0] if snaps else "snap",
            "the out-state must put exactly the selected coordinate exactly on the selected boundary")
@@ -592,6 +759,81 @@ def check_tagger_algebra(prog: Program, rep: Report) -> None:
             and norm(a1.func).endswith("sample_cell") and not a1.args
     rep.ob("R10.2-offset-to-target", ok, Loc(prog.class_named("CellVetoEventHandler").file, cv.lineno, "CellVetoEventHandler.send_event_time"),
            tr[0] if tr else "translate", "the target cell must be the active unit's cell translated by the sampled relative cell")
+
+
+def depends_on(fn: ast.FunctionDef, expr: ast.AST, source) -> bool:
+    """
+    Whether `expr` (inside fn) depends on a source expression -- `source(node)` tells which nodes are sources -- through data
+    dependences (assignments) or control dependences (a local assigned under a test / loop condition that depends on the source).
+    Flow-insensitive may-analysis over the locals of the function.
+    """
+    def hot(e: ast.AST, tainted: Set[str]) -> bool:
+        return any(source(x) or (isinstance(x, ast.Name) and x.id in tainted) for x in ast.walk(e))
+
+    tainted: Set[str] = set()
+    changed = True
+    while changed:
+        changed = False
+
+        def visit(stmts: List[ast.stmt], ctrl: bool) -> None:
+            nonlocal changed
+            for st in stmts:
+                if isinstance(st, (ast.FunctionDef, ast.ClassDef)):
+                    continue
+                targets: List[ast.AST] = []
+                value: Optional[ast.AST] = None
+                if isinstance(st, ast.Assign):
+                    targets, value = st.targets, st.value
+                elif isinstance(st, (ast.AugAssign, ast.AnnAssign)):
+                    targets, value = [st.target], st.value
+                elif isinstance(st, ast.For):
+                    targets, value = [st.target], st.iter
+                names = {x.id for t in targets for x in ast.walk(t) if isinstance(x, ast.Name)}
+                # x.attr = v / x[i] = v makes x carry v
+                if names and (ctrl or (value is not None and hot(value, tainted))):
+                    if not names <= tainted:
+                        tainted.update(names)
+                        changed = True
+                inner = ctrl
+                if isinstance(st, (ast.If, ast.While)):
+                    inner = ctrl or hot(st.test, tainted)
+                elif isinstance(st, ast.For):
+                    inner = ctrl or hot(st.iter, tainted)
+                for fld in ("body", "orelse", "finalbody"):
+                    b = getattr(st, fld, None)
+                    if isinstance(b, list) and b and isinstance(b[0], ast.stmt):
+                        visit(b, inner)
+                if isinstance(st, ast.Try):
+                    for h in st.handlers:
+                        visit(h.body, ctrl)
+        visit(fn.body, False)
+    return hot(expr, tainted)
+
+
+def check_active_cell_level(prog: Program, rep: Report, rule: str) -> None:
+    """
+    The cell-veto handler offsets the sampled relative cell from the cell of the active unit ON THE CELL LEVEL (the composite
+    object for a cell level above the leaves): the position handed to position_to_cell must be selected using the configured cell
+    level -- the active leaf unit's own position lies in another cell whenever the leaf is not on the cell level.
+    """
+    cvc = prog.class_named("CellVetoEventHandler")
+    if cvc is None or "send_event_time" not in cvc.methods:
+        raise AnalysisError("CellVetoEventHandler.send_event_time not found")
+    cv = canon(prog, cvc, cvc.methods["send_event_time"])
+    init_stores = [self_attr(t) for m in cvc.methods.values() for a in ast.walk(m) if isinstance(a, ast.Assign) for t in a.targets
+                   if self_attr(t) and isinstance(a.value, ast.Name) and a.value.id == "cell_level"]
+    level_attrs = set(init_stores)
+    if not level_attrs:
+        raise AnalysisError("CellVetoEventHandler does not store the cell level")
+    calls = [n for n in ast.walk(cv) if isinstance(n, ast.Call) and norm(n.func).endswith("position_to_cell") and len(n.args) == 1]
+    loc = Loc(cvc.file, cv.lineno, "CellVetoEventHandler.send_event_time")
+    if not calls:
+        rep.ob(rule, False, loc, "position_to_cell", "the active cell is not computed from a position")
+    for c in calls:
+        ok = depends_on(cv, c.args[0], lambda x: self_attr(x) in level_attrs)
+        rep.ob(rule, ok, Loc(cvc.file, c.lineno, loc.qual), c,
+               f"the position whose cell is the origin of the sampled offset does not depend on the cell level (self.{sorted(level_attrs)[0]}): "
+               "for a composite-object cell system the leaf unit's position is not the position the cell occupancy is kept for")
 
 
 # ---------------------------------------------------------------------------------------------------------------------
